@@ -186,6 +186,7 @@ class AArr:
             'flatten': lambda: AArr((len(self.data),), list(self.data), self.dtype),
             'dot': lambda o: matmul(I, self, o),
             'item': lambda: self.data[0],
+            'diagonal': lambda: _diag(self),
         }
         if name in table:
             f = table[name]
@@ -681,7 +682,7 @@ def numpy_module():
         'fmod': _B('fmod', lambda x, y: _fmod(x, y)),
         'array': _B('array', np_array), 'zeros': _B('zeros', _zeros), 'ones': _B('ones', np_ones), 'eye': _B('eye', _eye),
         'empty': _B('empty', np_empty), 'ndarray': _B('ndarray', np_ndarray),
-        'diag': _B('diag', _diag), 'hstack': _B('hstack', lambda a: _stack(a, 'h')), 'vstack': _B('vstack', lambda a: _stack(a, 'v')),
+        'diag': _B('diag', _diag), 'diagonal': _B('diagonal', _diag), 'hstack': _B('hstack', lambda a: _stack(a, 'h')), 'vstack': _B('vstack', lambda a: _stack(a, 'v')),
         'concatenate': _B('concatenate', _concatenate), 'delete': _B('delete', _delete), 'where': _B('where', _where),
         'sum': _B('sum', np_sum), 'any': _B('any', np_any), 'logical_not': _B('logical_not', logical_not),
         'size': _B('size', np_size), 'arange': _B('arange', np_arange), 'reshape': _B('reshape', reshape),
